@@ -53,6 +53,14 @@ class Probe:
         self.form.append(self.el)
         self.IN = sv.compile(':in-range')
         self.OUT = sv.compile(':out-of-range')
+        # both questions about the same element inside one call (any per-call bookkeeping is shared between them)
+        self.COMBOS = [(sv.compile(':is(:out-of-range, :in-range)'), lambda a, b: a or b),
+                       (sv.compile(':out-of-range, :in-range'), lambda a, b: a or b),
+                       (sv.compile('input:not(:out-of-range):in-range'), lambda a, b: a and not b),
+                       (sv.compile('input:not(:in-range):out-of-range'), lambda a, b: b and not a),
+                       (sv.compile(':not(:out-of-range):not(:in-range)'), lambda a, b: not a and not b),
+                       (sv.compile(':in-range:in-range, :out-of-range:not(:in-range)'), lambda a, b: a or (b and not a))]
+        self.n = 0
 
     def observe(self, t, mn, mx, v):
         e = self.el
@@ -68,6 +76,11 @@ class Probe:
         s2, b = monitors.guarded_call(self.OUT.match, e)
         if s1 != 'ok' or s2 != 'ok':
             return 'raise:%s' % (type(a).__name__ if s1 != 'ok' else type(b).__name__)
+        self.n += 1
+        c, f = self.COMBOS[self.n % len(self.COMBOS)]
+        s3, m = monitors.guarded_call(c.match, e)
+        if s3 != 'ok' or m != f(a, b):
+            return 'asked twice in one call (%s): %r, asked separately: in=%r out=%r' % (c.pattern, m, a, b)
         return (a, b)
 
 
@@ -147,6 +160,16 @@ def run_unit(u):
                             ('month', '-00'), ('datetime-local', '-01-01T00:00'), ('datetime-local', '-02-29T12:30')):
                 case(t, ys + rest, None, None, label='years')
                 case(t, None, ys + rest, ys + rest, label='years')
+        # digits that are not ASCII digits are never part of a valid value, whatever the position
+        for t, g in (('date', '2020-02-29'), ('month', '2020-12'), ('week', '2020-W10'), ('time', '23:59'), ('datetime-local', '2020-02-29T23:59'),
+                     ('number', '12.5'), ('range', '3')):
+            for zero in (0x0660, 0xFF10, 0x0966, 0x1D7CE):
+                allu = ''.join(chr(zero + ord(c) - 48) if c.isdigit() else c for c in g)
+                cands = [allu] + [g[:i] + chr(zero + ord(g[i]) - 48) + g[i + 1:] for i in range(len(g)) if g[i].isdigit()]
+                for cand in cands:
+                    case(t, cand, None, None, label='unicode_digits')
+                    case(t, None, cand, g, label='unicode_digits')
+                    case(t, g, None, cand, label='unicode_digits')
         good = {'date': '2020-02-29', 'month': '2020-12', 'week': '2020-W53', 'time': '23:59', 'datetime-local': '2020-02-29T23:59',
                 'number': '-12.5', 'range': '3'}
         junk = ['', ' ', 'x', '-', ':', 'T', 'W', '0', '/', '.', '+', 'Z', '\n']
